@@ -32,6 +32,7 @@ pub struct WindowEngine {
     c_recovery_applied: u64,
     c_vel_high: u64,
     c_huge_infl: u64,
+    focus: String,
 }
 
 impl WindowEngine {
@@ -54,6 +55,7 @@ impl WindowEngine {
             c_recovery_applied: 0,
             c_vel_high: 0,
             c_huge_infl: 0,
+            focus: "C06".into(),
         }
     }
 
@@ -112,7 +114,14 @@ impl WindowEngine {
                         self.conn.packet_log.insert(1_000_000 + k, self.now);
                     }
                     self.conn.in_flight_packets = self.conn.packet_log.len() as i32;
+                    // packets routed but not flushed yet must not count as in flight for the growth rule
+                    let queued = (crate::util::mix(self.seq as u64 ^ self.now) % 6) as usize;
+                    for k in 0..queued {
+                        self.conn.batch_sender.queue_packet(&[0u8; 32], Some(2_000_000 + k as u32), self.now);
+                    }
+                    self.seq += 1;
                     assert!(self.conn.handle_srtla_ack_specific(1_000_000, self.classic, self.now));
+                    self.conn.batch_sender.reset();
                     assert_eq!(self.conn.in_flight_packets as i64, n);
                     self.conn.packet_log.clear();
                     self.conn.in_flight_packets = 0;
@@ -182,6 +191,12 @@ impl WindowEngine {
 }
 
 impl Engine for WindowEngine {
+    fn configure(&mut self, args: &[String]) {
+        if let Some(i) = args.iter().position(|a| a == "--focus") {
+            self.focus = args[i + 1].clone();
+        }
+    }
+
     fn reset(&mut self, _cfg: &Value, _case_key: u64) {
         self.now = T0;
         self.classic = false;
@@ -295,6 +310,11 @@ impl Engine for WindowEngine {
         }
         let Some(pre) = ev.get("pre") else { return 2 };
         let act = gets(ev, "act");
+        if self.focus == "C10" {
+            // C10 fixes the classic rules exactly: +29 / +1 / -100, bounds
+            let classic_rule = getb(pre, "classic") && matches!(act, "EarnedAck" | "GlobalAck" | "Nak");
+            return if classic_rule && expected["w"] != got["w"] { 2 } else { 1 };
+        }
         let (w0, w1) = (geti(pre, "w"), geti(got, "w"));
         let (f0, f1) = (getb(pre, "fast"), getb(got, "fast"));
         let in_range = (1000..=60000).contains(&w1);
